@@ -11,6 +11,8 @@ groups (numeric factors, transposes and triangular masking are not decided):
 
 from __future__ import annotations
 
+import ast
+
 from fractions import Fraction
 
 from ..model import Program, expand_locals, norm, single_assignment_locals
@@ -53,8 +55,8 @@ def _name(t, mode):
     return f"degree {t}"
 
 
-def rule_r1(rep, program: Program, prop=PROP):
-    r = rep.rule("R1", "parity of grad_log_abs_det / grad_quadratic_form_inv under each sign-flip symmetry of the parametrisation", floor=16)
+def rule_r1(rep, program: Program, prop=PROP, rule="R1"):
+    r = rep.rule(rule, "parity of grad_log_abs_det / grad_quadratic_form_inv under each sign-flip symmetry of the parametrisation", floor=16)
     L = Lattice("parity")
     for cls, sym, atoms, m_par, p_par in PARITY:
         k = program.cls(cls)
@@ -71,8 +73,8 @@ def rule_r1(rep, program: Program, prop=PROP):
     return r
 
 
-def rule_r2(rep, program: Program):
-    r = rep.rule("R2", "homogeneity degree of the gradients in the defining parameter and in the vector", floor=18)
+def rule_r2(rep, program: Program, prop=PROP, rule="R2"):
+    r = rep.rule(rule, "homogeneity degree of the gradients in the defining parameter and in the vector", floor=18)
     L = Lattice("degree")
     for cls, sc, atoms, kdeg in DEGREE:
         k = program.cls(cls)
@@ -82,7 +84,7 @@ def rule_r2(rep, program: Program):
             got = te.func(f)
             r.inst({"class": cls, "scaling": sc, "method": f.qualname, "degree": str(got), "required": str(want)})
             if got != want:
-                r.violate(PROP, f"{f.qualname}:degree[{sc}]:{got}", f"under {sc} the matrix scales with a^{kdeg}, so {meth} must be homogeneous of degree {want}; the expression in {f.qualname} has {_name(got, 'degree')} (inverse vs forward matrix, missing square, or a term of different degree)", node=f.node, file=f.file)
+                r.violate(prop, f"{f.qualname}:degree[{sc}]:{got}", f"under {sc} the matrix scales with a^{kdeg}, so {meth} must be homogeneous of degree {want}; the expression in {f.qualname} has {_name(got, 'degree')} (inverse vs forward matrix, missing square, or a term of different degree)", node=f.node, file=f.file)
     for cls in VECTOR_CLASSES:
         k = program.cls(cls)
         f = k.resolve("grad_quadratic_form_inv")
@@ -90,7 +92,7 @@ def rule_r2(rep, program: Program):
         got = te.func(f, {f.params[1]: Fraction(1)})
         r.inst({"class": cls, "scaling": "vector -> b*vector", "method": f.qualname, "degree": str(got)})
         if got != Fraction(2):
-            r.violate(PROP, f"{f.qualname}:vector-degree:{got}", f"v^T M^-1 v is quadratic in v, so its gradient must have degree 2 in the vector; the expression in {f.qualname} has {_name(got, 'degree')}", node=f.node, file=f.file)
+            r.violate(prop, f"{f.qualname}:vector-degree:{got}", f"v^T M^-1 v is quadratic in v, so its gradient must have degree 2 in the vector; the expression in {f.qualname} has {_name(got, 'degree')}", node=f.node, file=f.file)
     return r
 
 
@@ -134,6 +136,45 @@ def rule_r3(rep, program: Program):
         r.inst({"method": f.qualname, "delegates per block": good is not None, "returns": [norm(x.value)[:80] for x in rets]})
         if good is None:
             r.violate(PROP, f"{f.qualname}:not-per-block", f"{f.qualname} does not return, for every block in order, that block's own {meth} (with the conformal part of the vector): the gradient no longer has the structure of the parameter (tuple of blocks) or mixes blocks", node=f.node, file=f.file)
+    return r
+
+
+INT_UNSAFE_FUNCS = {"np.reciprocal", "np.floor_divide", "np.power", "np.float_power_int", "np.invert"}
+
+
+def rule_r5(rep, program: Program):
+    """Parameters are stored as given, so an integer array is a legal parameter.  The gradient members
+    must use operations whose result does not depend on the parameter's dtype: true division and float
+    exponents promote, np.reciprocal / floor division / negative integer powers follow integer rules
+    (np.reciprocal(np.array([2])) == [0])."""
+    r = rep.rule("R5", "gradient members use dtype-promoting arithmetic on the stored parameters (no np.reciprocal, //, negative integer powers on arrays that may be integer)", floor=20)
+
+    def float_forced(e):
+        """the operand is certainly floating point: a float constant takes part, or an explicit cast"""
+        for n in ast.walk(e):
+            if isinstance(n, ast.Constant) and isinstance(n.value, float):
+                return True
+            if isinstance(n, ast.Call) and ((isinstance(n.func, ast.Attribute) and n.func.attr == "astype") or any(k.arg == "dtype" for k in n.keywords) or norm(n.func) in ("float", "np.float64", "np.sqrt", "np.exp", "np.log", "np.tanh", "np.sinh", "np.cosh", "sla.solve_triangular", "nla.eigh", "sla.cho_solve", "sla.lu_solve", "nla.solve", "nla.inv")):
+                return True
+            if isinstance(n, ast.BinOp) and isinstance(n.op, ast.Div):
+                return True
+        return False
+
+    for f in program.module("matrices").classes.values():
+        for g in f.methods.values():
+            if not (g.name.startswith("grad_") or g.name in ("_construct_inv", "log_abs_det", "_left_matrix_multiply", "_right_matrix_multiply", "_construct_sqrt", "inv_diagonal")):
+                continue
+            sites = []
+            for n in ast.walk(g.node):
+                if isinstance(n, ast.Call) and norm(n.func) in ("np.reciprocal", "np.floor_divide") and n.args and not float_forced(n.args[0]):
+                    sites.append((n, f"{norm(n.func)} applies integer rules to an integer array (np.reciprocal([2]) is [0])"))
+                if isinstance(n, ast.BinOp) and isinstance(n.op, ast.FloorDiv):
+                    sites.append((n, "floor division"))
+                if isinstance(n, ast.BinOp) and isinstance(n.op, ast.Pow) and isinstance(n.right, ast.UnaryOp) and isinstance(n.right.op, ast.USub) and isinstance(n.right.operand, ast.Constant) and isinstance(n.right.operand.value, int) and not float_forced(n.left):
+                    sites.append((n, "a negative integer power of an integer array raises / truncates"))
+            r.inst({"member": g.qualname, "dtype-sensitive operations": [norm(x[0])[:40] for x in sites]})
+            for n, why in sites:
+                r.violate(PROP, f"{g.qualname}:int-unsafe:{norm(n)[:40]}", f"{g.qualname} evaluates `{norm(n)[:60]}` on a stored parameter whose dtype is the caller's: {why}, so the member is wrong (silently) for integer-valued parameter arrays while every other member promotes to float", node=n, file=g.file)
     return r
 
 
@@ -304,3 +345,4 @@ def run(rep, program: Program, tier: str) -> None:
     rep.isolate(rule_r2, rep, program)
     rep.isolate(rule_r3, rep, program)
     rep.isolate(rule_r4, rep, program)
+    rep.isolate(rule_r5, rep, program)
